@@ -947,6 +947,7 @@ class ServerHello(HelloMessage):
         return self
 
     def parse(self, p):
+        self.extensions = None
         p.startLengthCheck(3)
         self.server_version = (p.get(1), p.get(1))
         self.random = p.getFixBytes(32)
